@@ -10,14 +10,14 @@ PID = "C15"
 RULE = (
     "Hypothesis generates interleavings (shrunk as one value) of read-only operations (registry getters, "
     "ObtainQuantity, Scalar/Array construction, GetValidUnits on the database and on objects, CheckCategoryUnit, "
-    "Convert, arithmetic on simple and derived (power) quantities, IsValid, FindUnitCase, GetDefaultCategory), failing lookups (unknown unit, unit of another "
+    "Convert, arithmetic on simple and derived (power) quantities and on an operand that writes two categories of one quantity type in different units, IsValid, FindUnitCase, GetDefaultCategory), failing lookups (unknown unit, unit of another "
     "type, unknown category) and registrations (AddUnitBase, AddUnit, AddCategory new / overriding / with another "
     "quantity type / from_category) on a warm database - a small generated one, and the shipped POSC table plus "
     "generated registrations; another database that uses the same names with other meanings is alive and is asked every "
     "question first. Oracle (differential + invariant): the outcome of every operation (value repr or exception "
     "class) equals the outcome of the same operation asked first on a database freshly rebuilt from the accepted "
     "registrations; the full registry snapshot (all public getters, both conversion functions sampled) is identical "
-    "before and after every read-only or failing step. Non-trivial = a query preceded by a failing lookup of the same "
+    "before and after every read-only or failing step. Plus an exhaustive sweep of the shipped table: every category x (first and last listed unit, first and last unit of its type that is not listed) through the object-level uses (GetValidUnits of Scalar / Array / FixedArray / FractionScalar - the returned list is then edited by the caller -, IsValid, CreateCopy, ObtainQuantity, CheckCategoryUnit, +), after each of which the valid and default units of every category of that quantity type and the type's units read as before. Non-trivial = a query preceded by a failing lookup of the same "
     "key, by an object-level GetValidUnits, or by a later registration; key = (database kind, query kind, preceding event kind, category/unit asked)."
 )
 ASSUMPTIONS = ["quantities and value objects obtained before a registration keep what they captured (documented design); only fresh queries are compared"]
@@ -50,6 +50,7 @@ def plan(tier, seed):
         specs.append({"part": "small", "tier": tier, "seed": seed, "examples": 400 if tier == "quick" else 8000})
     for i in range(3 if tier == "quick" else 6):
         specs.append({"part": "posc", "tier": tier, "seed": seed, "examples": 120 if tier == "quick" else 2500})
+    specs.append({"part": "sweep", "tier": tier, "seed": seed})
     return specs
 
 
@@ -134,6 +135,15 @@ def query(db, q):
             r = repr(Scalar(2.0, q[2], q[1]) * (1.0 / Scalar(3.0, q[3]) ** q[4]))
         elif k == "ArrayMulPow":
             r = repr(Array(numpy.array([2.0, 4.0]), q[2], q[1]) * (Array([3.0, 5.0], q[3]) * Array((1.0, 2.0), q[3])))
+        elif k == "AddMixed":
+            # the left operand writes two categories (of one quantity type, when the draw allows) in different units:
+            # the sum matches them to each other, and the quantity - shared through the cache - reads the same afterwards
+            from collections import OrderedDict
+
+            qa = ObtainQuantity(OrderedDict([(q[1], [q[2], 1]), (q[3], [q[4], 1])]))
+            a = Scalar.CreateWithQuantity(qa, 1.0)
+            b = Scalar(1.0, q[2], q[1]) * Scalar(1.0, q[2], q[1])
+            r = (repr(a + b), repr(a - b), repr(list(qa.GetCategoryToUnitAndExps().items())), qa.GetUnit(), repr(a * b))
         elif k == "IsValid":
             r = (Scalar(q[3], q[2], q[1]).IsValid(), Array([q[3], 1.0], q[2], q[1]).IsValid())
         elif k == "CheckValueForCategory":
@@ -326,6 +336,8 @@ def seq_strategy(base_kind, max_len):
             st.tuples(st.sampled_from(["GetValue", "Add", "Multiply", "CreateCopy"]), c, u, u),
             st.tuples(st.sampled_from(["IsValid", "CheckValueForCategory"]), c, u, x),
             st.tuples(st.sampled_from(["AddPow", "MulPow", "DivPow", "MulRecipPow", "ArrayMulPow"]), c, u, u, st.sampled_from([2, 3, 2])),
+            st.tuples(st.just("AddMixed"), c, u, c, u),
+            st.sampled_from([("AddMixed", "L", "m", "depth", "km"), ("AddMixed", "depth", "cm", "L", "m")] if base_kind == "small" else [("AddMixed", "length", "m", "depth", "km"), ("AddMixed", "liquid volume", "m3", "gas volume", "ft3"), ("AddMixed", "depth", "cm", "length", "m")]),
             st.just(("GetQuantityTypes",)),
             st.just(("GetUnitsAll",)),
         ).map(list)
@@ -390,8 +402,82 @@ def run_case(ctx, base_kind, ops):
     Machine(ctx, base_kind, {"base": base_kind, "ops": ops}).run(ops)
 
 
+def sweep_case(ctx, db, c, u, role):
+    """object-level use of one (category, unit) pair of the shipped table; what the database reports about the
+    category, about the other categories of its quantity type and about the type itself is the same afterwards"""
+    import numpy
+
+    from barril.units import Array, FixedArray, FractionScalar, ObtainQuantity, Scalar
+
+    qt = db.GetCategoryQuantityType(c)
+    case = {"kind": "sweep", "category": c, "unit": u, "role": role}
+
+    def report():
+        cats = [k for k, i in db.categories_to_quantity_types.items() if i.quantity_type == qt]
+        return [(k, list(db.GetValidUnits(k)), db.GetDefaultUnit(k)) for k in cats] + [("units", list(db.GetUnits(qt)))]
+
+    before = report()
+    light = snapshot.registry_light(db)
+    uses = [
+        ("Scalar.GetValidUnits", lambda: Scalar(1.0, u, c).GetValidUnits()),
+        ("Array.GetValidUnits", lambda: Array(numpy.array([1.0]), u, c).GetValidUnits()),
+        ("Array[list].GetValidUnits", lambda: Array([1.0, 2.0], u, c).GetValidUnits()),
+        ("FixedArray.GetValidUnits", lambda: FixedArray(2, [1.0, 2.0], u, c).GetValidUnits()),
+        ("FractionScalar.GetValidUnits", lambda: FractionScalar(1.0, u, c).GetValidUnits()),
+        ("Scalar.IsValid", lambda: Scalar(1.0, u, c).IsValid()),
+        ("Scalar.CreateCopy(unit)", lambda: Scalar(1.0, u, c).CreateCopy(unit=db.GetDefaultUnit(c))),
+        ("ObtainQuantity", lambda: ObtainQuantity(u, c).GetUnitName()),
+        ("CheckCategoryUnit", lambda: db.CheckCategoryUnit(c, u)),
+        ("Scalar+Scalar", lambda: Scalar(1.0, u, c) + Scalar(c)),
+    ]
+    for name, fn in uses:
+        ctx.ev()
+        try:
+            got = fn()
+        except Exception as e:
+            if core.tree_frame(e) is None:
+                raise
+            got = None
+        if name.endswith("GetValidUnits") and got is not None:
+            got.append("bv-caller-owned")
+        after = report()
+        if after != before or snapshot.registry_light(db) != light:
+            d = [(a, b) for a, b in zip(before, after) if a != b][:1]
+            ctx.record("query_changed_registry:sweep:%s:%s" % (name, role), case, "%s with category %r and unit %r (%s) changed what the database reports: %r" % (name, c, u, role, d))
+            return
+    ctx.nontrivial((c, u), case)
+
+
+def run_sweep(spec, ctx):
+    db = env.new_db("posc")
+    with env.pushed(db):
+        n = 0
+        for c in sorted(db.IterCategories()):
+            qt = db.GetCategoryQuantityType(c)
+            if qt == "Unknown" or qt not in db.quantity_types:
+                continue
+            valid = list(db.GetValidUnits(c))
+            units = list(db.GetUnits(qt))
+            outside = [x for x in units if x not in valid]
+            info = db.GetCategoryInfo(c)
+            cls = "own_list" if info.valid_units is not None else ("borrowed_list" if qt != c and qt in db.categories_to_quantity_types and db.GetCategoryInfo(qt).valid_units is not None else "type_units")
+            picks = [(valid[0], "listed")] if valid else []
+            if len(valid) > 1:
+                picks.append((valid[-1], "listed"))
+            if outside:
+                picks.append((outside[0], "unit_of_the_type_not_listed"))
+                picks.append((outside[-1], "unit_of_the_type_not_listed"))
+            for u, role in picks:
+                ctx.cls("sweep_%s_%s" % (cls, role))
+                core.guarded(ctx, lambda k: sweep_case(ctx, db, k["category"], k["unit"], k["role"]), {"kind": "sweep", "category": c, "unit": u, "role": role})
+                n += 1
+        ctx.exhaustive["shipped categories x (listed, not listed) units, object-level uses"] = "all %d pairs" % n
+
+
 def run_shard(spec, ctx):
     base_kind = spec["part"]
+    if base_kind == "sweep":
+        return run_sweep(spec, ctx)
     ops = seq_strategy(base_kind, 30 if base_kind == "small" else 20)
 
     def mk():
@@ -405,4 +491,8 @@ def run_shard(spec, ctx):
 
 
 def replay(case, ctx):
+    if case.get("kind") == "sweep":
+        db = env.new_db("posc")
+        with env.pushed(db):
+            return core.replay_guarded(ctx, lambda k: sweep_case(ctx, db, k["category"], k["unit"], k["role"]), case)
     return core.replay_guarded(ctx, lambda c: run_case(ctx, c["base"], [list(o) for o in c["ops"]]), case)
